@@ -2,6 +2,8 @@ package simrt
 
 import (
 	"iter"
+	"reflect"
+	"time"
 	"unsafe"
 )
 
@@ -130,6 +132,7 @@ func Send[T any](ch chan<- T, v T) {
 		}
 		ch <- v // cannot block: there is room (or it is closed and panics, as it must)
 		Wake(key)
+		Wake(unsafe.Pointer(&selectAddr))
 		return
 	}
 	if c.isClosed() {
@@ -138,6 +141,7 @@ func Send[T any](ch chan<- T, v T) {
 	RaceRelease(key)
 	it := c.push(v)
 	Wake(key)
+	Wake(unsafe.Pointer(&selectAddr))
 	for !it.isTaken() {
 		if c.isClosed() {
 			panic("send on closed channel")
@@ -166,6 +170,7 @@ func recv[T any](ch <-chan T) (T, bool) {
 		}
 		v, ok := <-ch // cannot block: data is buffered, or the channel is closed
 		Wake(key)
+		Wake(unsafe.Pointer(&selectAddr))
 		return v, ok
 	}
 	for {
@@ -181,7 +186,14 @@ func recv[T any](ch <-chan T) (T, bool) {
 			var zero T
 			return zero, false
 		}
-		Block(key)
+		// a receiver is now waiting: a select with a send case on this channel
+		// may proceed
+		c.addRecv(1)
+		Wake(unsafe.Pointer(&selectAddr))
+		func() {
+			defer c.addRecv(-1)
+			Block(key)
+		}()
 	}
 }
 
@@ -214,6 +226,7 @@ func Close[T any](ch chan<- T) {
 		close(ch)
 	}
 	Wake(key)
+	Wake(unsafe.Pointer(&selectAddr))
 	// senders parked on their own item must notice the close
 	wakeAllItems(c)
 }
@@ -241,3 +254,299 @@ func ChanIter[T any](ch <-chan T) iter.Seq[T] {
 		}
 	}
 }
+
+// ---- select ----
+//
+// A select statement is rewritten by the instrumenter into
+//
+//	switch zzsel := simrt.SelectReady(hasDefault, simrt.CanRecv(ch1), simrt.CanSend(ch2, x)); zzsel.I {
+//	case 0: v := simrt.SelRecv(zzsel, 0, ch1); ...
+//	case 1: simrt.SelSend(zzsel, 1, ch2, x); ...
+//	default: ...
+//	}
+//
+// Inside a simulated run SelectReady blocks the task (in the simulator) until
+// at least one case can proceed and chooses among the ready ones with the
+// run's PRNG; no other task runs between that decision and the chosen
+// operation, which SelRecv / SelSend perform on the channel recorded at entry.
+// Outside a simulated run (the fidelity gate, reference evaluation) the real
+// select is performed through reflect.Select and SelRecv / SelSend only hand
+// over its outcome. Deviations, stated: channel and value expressions are
+// evaluated a second time in the chosen case (the second value is ignored);
+// two selects facing each other on one unbuffered channel do not rendezvous
+// inside the simulator (a plain send/receive on the other side does).
+
+// SelCase describes one communication case of a select.
+type SelCase struct {
+	key  unsafe.Pointer
+	send bool
+	cap  int
+	len  func() int
+	ch   any
+	rv   reflect.Value
+	val  any
+}
+
+// Sel is the outcome of SelectReady.
+type Sel struct {
+	I     int
+	cases []SelCase
+	real  bool
+	got   reflect.Value
+	ok    bool
+}
+
+func CanRecv[T any](ch <-chan T) SelCase {
+	return SelCase{key: *(*unsafe.Pointer)(unsafe.Pointer(&ch)), cap: cap(ch), len: func() int { return len(ch) }, ch: ch, rv: reflect.ValueOf(ch)}
+}
+
+func CanSend[T any](ch chan<- T, v T) SelCase {
+	return SelCase{key: *(*unsafe.Pointer)(unsafe.Pointer(&ch)), send: true, cap: cap(ch), len: func() int { return len(ch) }, ch: ch, rv: reflect.ValueOf(ch), val: v}
+}
+
+var selectAddr byte
+
+//go:norace
+func (c *vchan) pending() int { return c.n }
+
+//go:norace
+func (c *vchan) waitingRecvs() int { return c.recvs }
+
+//go:norace
+func (c *vchan) addRecv(d int) { c.recvs += d }
+
+func caseReady(sc *SelCase) bool {
+	if sc.key == nil {
+		return false // nil channel: never ready
+	}
+	c := vchanOf(sc.key)
+	if sc.cap > 0 {
+		if sc.send {
+			return sc.len() < sc.cap || c.isClosed()
+		}
+		return sc.len() > 0 || c.isClosed()
+	}
+	if sc.send {
+		// a receiver is waiting that no pending sender has already claimed
+		return c.waitingRecvs() > c.pending() || c.isClosed()
+	}
+	return c.pending() > 0 || c.isClosed()
+}
+
+//go:norace
+func selDraw(n int) int { return int(rng.next() % uint64(n)) }
+
+//go:norace
+func noteSelect() {
+	if on {
+		stats.Selects++
+	}
+}
+
+// SelectReady decides which case of a select proceeds (I == -1: default).
+func SelectReady(hasDefault bool, cases ...SelCase) *Sel {
+	s := &Sel{cases: cases}
+	if !Active() {
+		rc := make([]reflect.SelectCase, 0, len(cases)+1)
+		for i := range cases {
+			c := &cases[i]
+			if c.send {
+				sv := reflect.Zero(c.rv.Type().Elem())
+				if c.val != nil {
+					sv = reflect.ValueOf(c.val).Convert(c.rv.Type().Elem())
+				}
+				rc = append(rc, reflect.SelectCase{Dir: reflect.SelectSend, Chan: c.rv, Send: sv})
+			} else {
+				rc = append(rc, reflect.SelectCase{Dir: reflect.SelectRecv, Chan: c.rv})
+			}
+		}
+		if hasDefault {
+			rc = append(rc, reflect.SelectCase{Dir: reflect.SelectDefault})
+		}
+		i, got, ok := reflect.Select(rc)
+		s.real, s.got, s.ok = true, got, ok
+		if hasDefault && i == len(cases) {
+			i = -1
+		}
+		s.I = i
+		return s
+	}
+	noteSelect()
+	for {
+		var ready [16]int
+		n := 0
+		for i := range cases {
+			if n < len(ready) && caseReady(&cases[i]) {
+				ready[n] = i
+				n++
+			}
+		}
+		if n > 0 {
+			s.I = ready[selDraw(n)]
+			return s
+		}
+		if hasDefault {
+			s.I = -1
+			return s
+		}
+		// clock-jump fault: the machine is slow, a timer this select waits for
+		// expires although other tasks could still run
+		if timerFault() && fireTimerAmong(cases) {
+			continue
+		}
+		Block(unsafe.Pointer(&selectAddr))
+	}
+}
+
+//go:norace
+func timerFault() bool {
+	return on && faults.ClockJump && nvtimers > 0 && frng.next()%4 == 0
+}
+
+// fireTimerAmong fires a pending timer whose channel is one of the cases.
+func fireTimerAmong(cases []SelCase) bool {
+	for i := range cases {
+		if cases[i].send || cases[i].key == nil {
+			continue
+		}
+		if fireTimerFor(cases[i].key) {
+			return true
+		}
+	}
+	return false
+}
+
+//go:norace
+func fireTimerFor(key unsafe.Pointer) bool {
+	for i := range vtimers {
+		if vtimers[i].used && vtimers[i].key == key {
+			t := vtimers[i]
+			vtimers[i] = vtimer{}
+			nvtimers--
+			if t.at > simNow {
+				simNow = t.at
+			}
+			stats.TimersFired++
+			stats.ClockJumps++
+			t.fire()
+			return true
+		}
+	}
+	return false
+}
+
+// SelRecv2 performs (or hands over) the receive of the chosen case.
+func SelRecv2[T any](s *Sel, i int, _ <-chan T) (T, bool) {
+	if s.real {
+		var zero T
+		if !s.got.IsValid() {
+			return zero, s.ok
+		}
+		v, _ := s.got.Interface().(T)
+		return v, s.ok
+	}
+	ch, _ := s.cases[i].ch.(<-chan T)
+	return recv(ch)
+}
+
+func SelRecv[T any](s *Sel, i int, ch <-chan T) T {
+	v, _ := SelRecv2(s, i, ch)
+	return v
+}
+
+// SelSend performs the send of the chosen case (outside a simulated run the
+// real select has already sent).
+func SelSend[T any](s *Sel, i int, _ chan<- T, _ T) {
+	if s.real {
+		return
+	}
+	ch, _ := s.cases[i].ch.(chan<- T)
+	v, _ := s.cases[i].val.(T)
+	Send(ch, v)
+}
+
+// ---- timers (discrete-event: fire only when nothing else can run) ----
+
+type vtimer struct {
+	at   int64
+	fire func()
+	used bool
+	key  unsafe.Pointer
+}
+
+var (
+	vtimers  [64]vtimer
+	nvtimers int
+)
+
+//go:norace
+func resetTimers() {
+	for i := range vtimers {
+		vtimers[i] = vtimer{}
+	}
+	nvtimers = 0
+}
+
+//go:norace
+func addTimer(at int64, key unsafe.Pointer, fire func()) bool {
+	for i := range vtimers {
+		if !vtimers[i].used {
+			vtimers[i] = vtimer{at: at, fire: fire, used: true, key: key}
+			nvtimers++
+			return true
+		}
+	}
+	return false
+}
+
+// fireEarliestTimer advances the simulated clock to the earliest pending timer
+// and fires it. Called when no task is runnable.
+//
+//go:norace
+func fireEarliestTimer() bool {
+	best := -1
+	for i := range vtimers {
+		if vtimers[i].used && (best < 0 || vtimers[i].at < vtimers[best].at) {
+			best = i
+		}
+	}
+	if best < 0 {
+		return false
+	}
+	t := vtimers[best]
+	vtimers[best] = vtimer{}
+	nvtimers--
+	if t.at > simNow {
+		simNow = t.at
+	}
+	stats.TimersFired++
+	t.fire()
+	return true
+}
+
+// After replaces time.After: the channel delivers once simulated time has
+// passed d, which happens when every task is waiting (the clock jumps to the
+// next timer) or when the simulated clock is advanced past it by Sleep.
+func After(d time.Duration) <-chan time.Time {
+	if !Active() {
+		return time.After(d)
+	}
+	ch := make(chan time.Time, 1)
+	key := *(*unsafe.Pointer)(unsafe.Pointer(&ch))
+	at := nowNanos() + int64(d)
+	ok := addTimer(at, key, func() {
+		select {
+		case ch <- time.Unix(0, at).UTC():
+		default:
+		}
+		Wake(key)
+		Wake(unsafe.Pointer(&selectAddr))
+	})
+	if !ok {
+		abort("harness-limit", "too many pending timers")
+	}
+	return ch
+}
+
+//go:norace
+func nowNanos() int64 { return simNow }
